@@ -1534,6 +1534,13 @@ class SpaceManager(SharedSpaceOperations):
             is_relative = False
             subvalue = value
             if name in subspace.own_refs:
+                subref = subspace.own_refs[name]
+                if subref.is_derived():
+                    # The new reference may precede the current base of
+                    # the derived reference in the MRO of the sub space.
+                    bases = self.get_deriv_bases(subref, defined_only=True)
+                    if bases[0] is result:
+                        subref.on_inherit(self, bases)
                 continue
             if isinstance(value, Interface) and value._is_valid():
                 if refmode == "auto" or refmode == "relative":
